@@ -77,6 +77,10 @@ pub struct Reject {
     pub message: String,
     pub details: Blob,
     pub md: Vec<MdEntry>,
+    /// the status metadata also holds an entry named grpc-status-details-bin (e.g. upstream trailers forwarded as
+    /// metadata); only used together with non-empty details, which must win
+    #[serde(default)]
+    pub shadow: bool,
 }
 
 #[derive(Clone, Debug, Serialize, Deserialize)]
@@ -237,8 +241,9 @@ fn reject() -> BoxedStrategy<Reject> {
         prop_oneof![1 => Just(String::new()), 6 => gen::unicode_string(24), 1 => gen::unicode_string(200)],
         prop_oneof![2 => Just(Blob::Hex(String::new())), 5 => small_bytes(40), 1 => (0u32..=200, any::<u32>()).prop_map(|(n, s)| Blob::Rnd(n, s))],
         md::entries(5, true, true),
+        proptest::bool::weighted(0.2),
     )
-        .prop_map(|(code, message, details, md)| Reject { code, message, details, md })
+        .prop_map(|(code, message, details, md, shadow)| Reject { code, message, details, md, shadow })
         .boxed()
 }
 
@@ -604,7 +609,11 @@ fn apply_real(op: &Op, req: &mut tonic::Request<()>) {
 }
 
 fn build_status(r: &Reject) -> Status {
-    Status::with_details_and_metadata(Code::from_i32(r.code), r.message.clone(), Bytes::from(r.details.bytes()), md::build_map(&r.md))
+    let mut meta = md::build_map(&r.md);
+    if r.shadow && !r.details.bytes().is_empty() {
+        meta.insert_bin("grpc-status-details-bin", tonic::metadata::MetadataValue::from_bytes(b"details forged through metadata"));
+    }
+    Status::with_details_and_metadata(Code::from_i32(r.code), r.message.clone(), Bytes::from(r.details.bytes()), meta)
 }
 
 #[derive(Clone)]
@@ -733,6 +742,7 @@ fn judge<B: Body<Data = Bytes, Error = Status> + Unpin>(c: &Case, rec: &Arc<Mute
         o.label_if(res, "reject_md_reserved_name");
         o.label_if(rej.code == 0, "reject_code_ok");
         o.label_if(!details.is_empty(), "reject_with_details");
+        o.label_if(rej.shadow && !details.is_empty(), "reject_metadata_named_like_details_header");
         o.label_if(rej.message.bytes().any(|b| !(0x20..=0x7e).contains(&b) || b == b'%'), "reject_message_needs_escaping");
         o.label_if(!c.ops.is_empty(), "reject_after_ops");
         return Ok(());
@@ -928,7 +938,7 @@ impl Prop for C12 {
         run(c, o)
     }
     fn rule() -> &'static str {
-        "proptest: http::Request with method in {GET,POST,OPTIONS,PUT,3 extension methods (inline and allocated)} x version in {0.9,1.0,1.1,2,3} x URI (13 pooled forms incl. absolute, authority-form, '*', percent-escapes, empty query; built scheme/authority/path/query) x 0-18 headers in 0-6 name groups (1-3 interleaved values per name; metadata name pool, the six gRPC-reserved names, grpc-timeout/grpc-encoding/authorization/host; values ASCII, opaque >=0x80, empty, base64 and non-base64 under -bin names) x typed extensions (three marker types, each present or not) x uniquely tagged non-Clone body, through InterceptedService::new(closure) / InterceptorLayer / a struct implementing Interceptor around a recording inner service. The interceptor plays 0-4 operations on the tonic::Request<()> (insert, append, remove [biased to existing, reserved and -bin keys], replace the whole map, return a fresh Request, add / override / remove an extension) and then accepts or rejects with Status(code 0..=16, Unicode message, details 0-200 bytes, metadata). Oracle: reference ordered multimap with the same operations applied. Accept: inner called once with the original method/version/URI/body tag, the modelled headers (same key set, per key the same ordered values; -bin values added by the interceptor judged by an independent base64 decoder) and the modelled extensions; the inner response (status, headers, extension, body frames, trailers) or error comes back unchanged. Reject: inner never called; HTTP 200, one content-type: application/grpc, grpc-status / grpc-message / grpc-status-details-bin judged by independent decoders, every non-reserved status metadata entry present, Status::from_header_map reads the same status back, body is_end_stream() and yields no frame. Non-trivial: rejected, or the request has a reserved / repeated / -bin header and the interceptor performs >=1 operation; distinct = distinct serialised case."
+        "proptest: http::Request with method in {GET,POST,OPTIONS,PUT,3 extension methods (inline and allocated)} x version in {0.9,1.0,1.1,2,3} x URI (13 pooled forms incl. absolute, authority-form, '*', percent-escapes, empty query; built scheme/authority/path/query) x 0-18 headers in 0-6 name groups (1-3 interleaved values per name; metadata name pool, the six gRPC-reserved names, grpc-timeout/grpc-encoding/authorization/host; values ASCII, opaque >=0x80, empty, base64 and non-base64 under -bin names) x typed extensions (three marker types, each present or not) x uniquely tagged non-Clone body, through InterceptedService::new(closure) / InterceptorLayer / a struct implementing Interceptor around a recording inner service. The interceptor plays 0-4 operations on the tonic::Request<()> (insert, append, remove [biased to existing, reserved and -bin keys], replace the whole map, return a fresh Request, add / override / remove an extension) and then accepts or rejects with Status(code 0..=16, Unicode message, details 0-200 bytes, metadata). Oracle: reference ordered multimap with the same operations applied. Accept: inner called once with the original method/version/URI/body tag, the modelled headers (same key set, per key the same ordered values; -bin values added by the interceptor judged by an independent base64 decoder) and the modelled extensions; the inner response (status, headers, extension, body frames, trailers) or error comes back unchanged. Reject: inner never called; HTTP 200, one content-type: application/grpc, grpc-status / grpc-message / grpc-status-details-bin judged by independent decoders, every non-reserved status metadata entry present, Status::from_header_map reads the same status back, body is_end_stream() and yields no frame. Non-trivial: rejected, or the request has a reserved / repeated / -bin header and the interceptor performs >=1 operation; distinct = distinct serialised case. Also: rejection statuses whose metadata has an entry named grpc-status-details-bin next to non-empty details."
     }
     fn assumptions() -> Vec<String> {
         vec![
@@ -955,7 +965,7 @@ impl Prop for C12 {
                     let (ops, reject) = match k {
                         0 => (vec![], None),
                         1 => (vec![Op::Insert(hdr("x-added", "1"))], None),
-                        _ => (vec![], Some(Reject { code: 7, message: "no".into(), details: Blob::Hex(String::new()), md: vec![] })),
+                        _ => (vec![], Some(Reject { code: 7, message: "no".into(), details: Blob::Hex(String::new()), md: vec![], shadow: false })),
                     };
                     v.push(Case {
                         form: ((m as usize + ui) % 3) as u8,
